@@ -142,9 +142,9 @@ var plans = map[string]plan{
 	},
 	"C16": {
 		Property: "C16", Level: "exploration",
-		Quick:    []phase{{Scen: "C16", Enum: true, Seeds: 20000, Batch: 2000}, {Scen: "C16P", Seeds: 800, Batch: 25}},
-		Thorough: []phase{{Scen: "C16", Enum: true, Seeds: 2000000, Batch: 20000}, {Scen: "C16P", Seeds: 60000, Batch: 100}},
-		Rule:     "enumerated: every sequence of 1..4 (quick) / 1..5 (thorough) calls over {Close, Direct(cidA), Direct(cidB), Next, UncacheCid} assigned to two caller tasks, executed in that global order with blocked calls left pending; seeded: 2..5 tasks, 2..12 calls incl. Direct from a denied peer, scheduler-chosen interleaving at call granularity. A run is non-trivial when at least two calls were simultaneously enabled or pending; distinct = distinct (schedule hash, canonical log hash)",
+		Quick:    []phase{{Scen: "C16", Enum: true, Seeds: 20000, Batch: 2000}, {Scen: "C16P", Seeds: 800, Batch: 25}, {Scen: "C16R", Seeds: 800, Batch: 50, GMP: "4"}},
+		Thorough: []phase{{Scen: "C16", Enum: true, Seeds: 2000000, Batch: 20000}, {Scen: "C16P", Seeds: 60000, Batch: 100}, {Scen: "C16R", Seeds: 20000, Batch: 250, Race: true}},
+		Rule:     "C16R: parallel windows - 3..6 callers, at least two of them Close, released in one scheduler step on a fresh receiver (with or without an application-given pubsub topic) run on real threads (GOMAXPROCS 4; -race worker in thorough): all return, Close with nil, nothing panics (an observation of real parallelism, not a replayable schedule). enumerated: every sequence of 1..4 (quick) / 1..5 (thorough) calls over {Close, Direct(cidA), Direct(cidB), Next, UncacheCid} assigned to two caller tasks, executed in that global order with blocked calls left pending; seeded: 2..5 tasks, 2..12 calls incl. Direct from a denied peer, scheduler-chosen interleaving at call granularity. A run is non-trivial when at least two calls were simultaneously enabled or pending; distinct = distinct (schedule hash, canonical log hash)",
 		Real:     []string{"announce.Receiver (no pubsub host)", "announce string LRU", "Go channel/select semantics (runtime)"},
 		Stubs:    []string{"pubsub topic (absent: receiver created without a libp2p host)", "wall clock (testing/synctest)"},
 		Assume:   commonAssume,
